@@ -49,3 +49,5 @@ void M__ZNSt7__cxx1112basic_stringIcSt11char_traitsIcESaIcEED1Ev(void* self) {
 void M__ZN4llvm15SmallVectorBase8grow_podEPvmm(void* self, void* firstEl, uint64_t minSize, uint64_t tsize) {
   __CPROVER_assert(0, "model: SmallVector growth beyond inline capacity (outside bound)"); __CPROVER_assume(0);
 }
+void M__ZNSt8ios_base4InitC1Ev(void* p) {}
+void M__ZNSt8ios_base4InitD1Ev(void* p) {}
